@@ -832,25 +832,51 @@ func c15GenCase(g *Gen, failBias bool) {
 	if nf > 0 {
 		g.Emit("exec")
 	}
-	if (legacy == 2 && g.Intn(2) == 0) || g.Intn(12) == 0 {
+	if price > 0 && dflt > 0 && (legacy == 2 || g.Intn(12) == 0) {
 		// directed (bites with the legacy balance check, which looks at the block's initial
 		// snapshot): account 4 spends nearly everything, gets credited by PreValidate with a
 		// value a failing program never delivers, then runs a transaction that succeeds but
-		// cannot pay its fee -> "rollback all changes" branch of Execute
+		// cannot pay its fee -> "rollback all changes" branch of Execute (status nil -> OutOfBalance)
 		a := 1 + g.Intn(3)
-		rest := int64(g.Intn(int(2*dflt*price + 2)))
-		v1 := known[4] - dflt*price - rest
-		nb := c15InputBytes("c", "f1")
-		limc := dflt + input*int64(nb)
-		credit := 2*dflt*price + int64(g.Intn(5))
-		if v1 >= 0 && known[a] >= credit+limc*price {
-			g.Emit("tx t 4 %d %d %d", 1+g.Intn(3), v1, dflt)
-			g.Emit("tx c %d 4 %d %d %d f1", a, credit, limc, nb)
-			g.Emit("tx t 4 %d %d %d", 1+g.Intn(3), g.Pick(0, 0, 1, int(rest/2+1)), dflt)
-			g.Emit("exec")
-			known[a] -= credit + limc*price
-			known[4] = 0
+		prog3 := []string{"", "e1.s0=1", "e2.x1:0.e3"}[g.Intn(3)]
+		nb3 := 0
+		if prog3 != "" {
+			nb3 = c15InputBytes("c", prog3)
 		}
+		lim3 := dflt + input*int64(nb3) + int64(g.Pick(0, 0, 20))
+		fee3 := (dflt + input*int64(nb3)) * price
+		var rest, w int64 // what account 4 keeps after its first transaction; value of its last one
+		switch g.Intn(3) {
+		case 0: // cannot pay even after the rollback: price -> 0
+			rest = int64(g.Intn(int(fee3)))
+		case 1: // can pay after the rollback: charged, status OutOfBalance
+			w = 1 + int64(g.Intn(3))
+			rest = fee3 + w - 1 - int64(g.Intn(int(w)))
+		default: // boundary: exactly enough
+			rest = fee3
+		}
+		nbf := c15InputBytes("c", "f1")
+		limf := dflt + input*int64(nbf)
+		credit := lim3*price + w + int64(g.Intn(3))
+		fund4 := known[4]
+		v1 := int64(1 + g.Intn(50))
+		need4 := v1 + dflt*price + rest
+		if fund4 < need4 {
+			g.Emit("tx t 0 4 %d %d", need4-fund4, dflt)
+		} else {
+			v1 = fund4 - dflt*price - rest
+		}
+		g.Emit("tx t 0 %d %d %d", a, credit+limf*price, dflt)
+		g.Emit("exec")
+		g.Emit("tx t 4 %d %d %d", 1+g.Intn(3), v1, dflt)
+		g.Emit("tx c %d 4 %d %d %d f1", a, credit, limf, nbf)
+		if prog3 == "" {
+			g.Emit("tx t 4 %d %d %d", 1+g.Intn(3), w, lim3)
+		} else {
+			g.Emit("tx c 4 %d %d %d %d %s", c15Script1, w, lim3, nb3, prog3)
+		}
+		g.Emit("exec")
+		known[4] = 0
 	}
 	nblocks := 2 + g.Intn(5)
 	for b := 0; b < nblocks; b++ {
